@@ -362,6 +362,15 @@ void World::feed_stdin(int node, uint64_t t, std::vector<uint8_t> bytes) {
 // listener handler accounting: a listener returning to recv/poll/read(timer) has finished its handler
 static void handler_done(World &w) {
     Node &n = w.cur_node();
+    if (n.is_listener) {
+        uint64_t sp = (uint64_t)(uintptr_t)__builtin_frame_address(0);
+        if (!n.sp_first) n.sp_first = n.sp_low = sp;
+        else if (sp + 1024 < n.sp_low) {
+            n.sp_low = sp;
+            n.sp_deeper++;
+            if (n.sp_first - sp > (16u << 10) && n.sp_deeper >= 8 && w.hooks.on_stack_growth) w.hooks.on_stack_growth(w, w.cur_node_id(), n.sp_first - sp, n.sp_deeper);
+        }
+    }
     if (n.is_listener && n.in_handler) {
         n.in_handler = false;
         g_handler_node = nullptr;
@@ -478,6 +487,9 @@ int __wrap_setsockopt(int fd, int level, int optname, const void *optval, sockle
         e->memberships.push_back(std::vector<uint8_t>(m->mr_address, m->mr_address + 6));
     } else if (level == SOL_CAN_RAW && optname == CAN_RAW_FD_FRAMES && optlen >= sizeof(int)) {
         e->canfd_enabled = *(const int *)optval != 0;
+    } else if (level == SOL_SOCKET && optname == SO_RCVTIMEO && optlen >= sizeof(struct timeval)) {
+        const struct timeval *tv = (const struct timeval *)optval;
+        e->rcvtimeo_ns = (uint64_t)tv->tv_sec * 1000000000ULL + (uint64_t)tv->tv_usec * 1000ULL;
     }
     return 0;
 }
@@ -501,8 +513,10 @@ ssize_t __wrap_recv(int fd, void *buf, size_t len, int flags) {
     w.sched_point();
     FdEnt *e = w.fd(fd);
     if (!e || (e->kind != FdEnt::PACKET && e->kind != FdEnt::UDP)) { errno = EBADF; return -1; }
+    uint64_t rdl = e->rcvtimeo_ns ? w.now + e->rcvtimeo_ns : 0;
     while (e->rxq.empty()) {
-        w.block_on({fd});
+        if (rdl && w.now >= rdl) { w.count("ev.rcvtimeo"); w.log("recv-timeout", (uint64_t)fd); errno = EAGAIN; return -1; }
+        w.block_on({fd}, rdl);
         e = w.fd(fd);
         if (!e) { errno = EBADF; return -1; }
     }
@@ -594,8 +608,10 @@ ssize_t __wrap_read(int fd, void *buf, size_t len) {
             w.log("can-read0", (uint64_t)fd);
             return 0;
         }
+        uint64_t rdl = e->rcvtimeo_ns ? w.now + e->rcvtimeo_ns : 0;
         while (e->canq.empty()) {
-            w.block_on({fd});
+            if (rdl && w.now >= rdl) { w.count("ev.rcvtimeo"); w.log("can-read-timeout", (uint64_t)fd); errno = EAGAIN; return -1; }
+            w.block_on({fd}, rdl);
             e = w.fd(fd);
             if (!e) { errno = EBADF; return -1; }
         }
@@ -613,6 +629,7 @@ ssize_t __wrap_read(int fd, void *buf, size_t len) {
             struct can_frame fr;
             memset(&fr, 0, sizeof fr);
             fr.can_id = c.can_id; fr.len = c.len;
+            if (c.len == 8) fr.len8_dlc = c.dlc8;
             memcpy(fr.data, c.data, 8);
             n = std::min(len, sizeof fr);
             memcpy(buf, &fr, n);
@@ -673,17 +690,33 @@ ssize_t __wrap_write(int fd, const void *buf, size_t len) {
             struct can_frame fr;
             memcpy(&fr, buf, sizeof fr);
             c.can_id = fr.can_id; c.len = fr.len; c.fd = false;
+            if (fr.len > CAN_MAX_DLEN) {  // the kernel refuses frames whose length exceeds the frame type's maximum
+                errno = EINVAL; w.log("can-write-einval", len, fr.len); w.count("ev.can_write_einval");
+                return -1;
+            }
             memcpy(c.data, fr.data, 8);
         } else if (len == sizeof(struct canfd_frame) && e->canfd_enabled) {
             struct canfd_frame fr;
             memcpy(&fr, buf, sizeof fr);
             c.can_id = fr.can_id; c.len = fr.len; c.flags = fr.flags; c.fd = true;
+            if (fr.len > CANFD_MAX_DLEN) {
+                errno = EINVAL; w.log("can-write-einval", len, fr.len); w.count("ev.can_write_einval");
+                return -1;
+            }
             memcpy(c.data, fr.data, 64);
         } else {
             errno = EINVAL;
             w.log("can-write-einval", len);
             w.count("ev.can_write_einval");
             return -1;
+        }
+        if (w.can_txq_cap) {
+            if (e->tx_busy_until < w.now) e->tx_busy_until = w.now;
+            if ((e->tx_busy_until - w.now + w.can_tx_ns - 1) / w.can_tx_ns >= w.can_txq_cap) {
+                errno = ENOBUFS; w.log("can-write-enobufs", c.can_id); w.count("fault.can_enobufs");
+                return -1;
+            }
+            e->tx_busy_until += w.can_tx_ns;
         }
         if (e->bus >= 0) w.bus_log[e->bus].push_back(c);
         w.log("can-write", c.can_id, (uint64_t)c.len | ((uint64_t)c.flags << 8) | ((uint64_t)c.fd << 16), c.data, std::min<size_t>(c.len, 64));
